@@ -310,7 +310,9 @@ FILL = {
 }
 ATTRS = {
     "none": [""],
-    "dq": [' class="a b"', ' id="x1" title=""'],
+    "dq": [' class="a b"', ' id="x1" title=""',
+           # (an ordinary attribute whose VALUE happens to be a namespace URI of the template language is no declaration)
+           ' href="http://xml.zope.org/namespaces/tal" title="http://xml.zope.org/namespaces/metal"'],
     "sq": [" class='a \"b\"'", " data-x='1'"],
     "unquoted": [" width=100", " a=b c=d", " href=/x/y class=z", " b=c/d e=f", " src=a/b.png"],
     "valueless": [" hidden", " a b", " b n=1", ' hidden t="1" r', " checked tr=x nt"],
